@@ -668,6 +668,16 @@ impl NodeRecordStore {
         let record_key = PrettyPrintRecordKey::from(&r.key).into_owned();
         debug!("PUTting a verified Record: {record_key:?}");
 
+        // Records arriving through `put` are size-checked there; records fetched through replication
+        // reach the store only here, so the same limit has to hold on this path as well.
+        if r.value.len() >= self.config.max_value_bytes {
+            warn!(
+                "Record {record_key:?} not stored. Value too large: {} bytes",
+                r.value.len()
+            );
+            return Err(Error::ValueTooLarge);
+        }
+
         // if cache already has the record :
         //   * if with same content, do nothing and return early
         //   * if with different content, remove the existing one
